@@ -48,9 +48,11 @@ def target_st(draw):
     return form, path
 
 
-HDR_NAMES = ["X-A", "x-a", "X-B", "Accept", "Cookie", "User-Agent", "Content-Type", "X-Long-Header-Name", "Referer", "Authorization"]
+HDR_NAMES = ["X-A", "x-a", "X-B", "Accept", "Cookie", "User-Agent", "Content-Type", "X-Long-Header-Name", "Referer", "Authorization",
+             # ordinary (dash-spelled) names whose CGI form collides with a variable the server sets itself
+             "Script-Name", "SCRIPT-NAME", "Path-Info", "Server-Protocol", "Remote-Addr", "Request-Method", "Query-String", "Raw-Uri"]
 HDR_VALS = ["v", "a, b", "", "text/plain", "caf\xe9", "\xff", "x=1; y=2", "a\tb", "  padded  ", "\x01", "\x7f", "w" * 200, "a,b", ",",
-            "\x0bv", "v\x0c", "\x85x", "voil\xc3\xa0", "\x1fz\x1c", "\xa0", " \xa0 ", "x\x1d", "\x1ey"]
+            "\x0bv", "v\x0c", "\x85x", "voil\xc3\xa0", "\x1fz\x1c", "\xa0", " \xa0 ", "x\x1d", "\x1ey", "/a", "/nope", "/"]
 
 
 def strategy(tier):
